@@ -2124,6 +2124,9 @@ func (a *Authenticator) handleClientAuthentication(ctx context.Context, negotiat
 		// that YES/NO answer as if it were a level, so take the flag from what
 		// actually happens on this connection: nothing.
 		negotiation.Authentication = false
+		if a.config.Authentication == SecurityRequired {
+			return fmt.Errorf("authentication is required by local policy but the server will not authenticate")
+		}
 		return nil
 	}
 
